@@ -298,6 +298,10 @@ class GenProblem:
         if k["forall"] and f.arity > 0 and rng.random() < 0.3:
             v = self.fresh_var(rng.choice([pp.type for pp in f.signature]))
             scope, forall = (v,), (v,)
+            if rng.random() < 0.35:
+                # a second quantified variable, often of the SAME type (the product of the objects is taken twice)
+                v2 = self.fresh_var(v.type if rng.random() < 0.7 else rng.choice([self.T0, self.T1]))
+                scope, forall = (v, v2), (v, v2)
         target = self.gen_fluent(f, 0, params, scope)
         cond = True
         if k["conditional"] and rng.random() < 0.4:
